@@ -28,6 +28,10 @@ Definition tab (n m : nat) (f : nat -> nat -> Z) : mat :=
   map (fun i => map (fun j => f i j) (seq 0 m)) (seq 0 n).
 Definition btab (n : nat) (f : nat -> bool) : list bool := map f (seq 0 n).
 
+Fixpoint mapi_from {A B} (k : nat) (f : nat -> A -> B) (l : list A) : list B :=
+  match l with [] => [] | x :: r => f k x :: mapi_from (S k) f r end.
+Definition mapi {A B} (f : nat -> A -> B) (l : list A) : list B := mapi_from O f l.
+
 Definition nrows (M : mat) : nat := length M.
 Definition ncols (M : mat) : nat := match M with [] => O | r :: _ => length r end.
 Definition rectb (M : mat) (n m : nat) : bool :=
@@ -122,8 +126,7 @@ Fixpoint step4_loop (fuel : nat) (C : mat) (n m : nat) (cov : bmat) (s : hstate)
               let ru := upd (rowunc s) row false in
               let cu := upd (colunc s) sc true in
               (* covered_C[:, col] = C[:, col] * row_uncovered ; covered_C[row] = 0 *)
-              let cov1 := bmtab n m (fun i j => if Nat.eqb j sc then (mget C i sc =? 0) && bget ru i
-                                                 else bmget cov i j) in
+              let cov1 := mapi (fun i r => upd r sc ((mget C i sc =? 0) && bget ru i)) cov in
               let cov2 := upd cov1 row (repeat false m) in
               step4_loop f C n m cov2
                 {| hC := hC s; rowunc := ru; colunc := cu; marked := mk; z0r := z0r s; z0c := z0c s |}
@@ -280,9 +283,9 @@ Definition check_cert (C : mat) (res : result) : bool :=
 
 (** ------------------------------------------------------------------------------------------
     Correspondence helpers: the same run with a rolling digest of every intermediate state. *)
-Definition dP : Z := 2305843009213693951.     (* 2^61 - 1 *)
-Definition dB : Z := 1000003.
-Definition dstep (h x : Z) : Z := (h * dB + (x mod dP) + 1) mod dP.
+Definition dP : Z := 18446744073709551615.    (* 2^64 - 1, used as a bit mask: reduction mod 2^64 *)
+Definition dB : Z := 1048583.   (* 2^20 + 7 *)
+Definition dstep (h x : Z) : Z := Z.land (dB * h + x + 1) dP.
 Definition b2z (b : bool) : Z := if b then 1 else 0.
 Definition step_code (k : hstep) : Z :=
   match k with S1 => 1 | S3 => 3 | S4 => 4 | S5 => 5 | S6 => 6 | Done => 0 end.
